@@ -1,3 +1,965 @@
-//! C04 — bounded checks (to be written)
-use crate::ctx::Ctx;
-pub fn run(_ctx: &mut Ctx) {}
+//! C04 — dagger and spiders give the hypergraph-category (Frobenius) structure.
+//!
+//! Oracles (written from the statement, plain loops over Vec):
+//!   * dagger: the SAME node list, edge list, source/target lists (and, for the lax representation,
+//!     the same pending identifications), with the two interface lists exchanged — compared
+//!     EXACTLY, not up to isomorphism ("leaves nodes and hyperedges untouched");
+//!   * contravariance / tensor: both sides evaluated by the library and by the reference
+//!     operations, compared with model::iso;
+//!   * spider (s,t,w): None iff a leg does not land in w; otherwise the discrete diagram on w with
+//!     legs s,t;
+//!   * fusion: classes of the smallest equivalence on w ⊔ w' containing t[i] ~ s'[i]
+//!     (model::classes: naive closure), one node per class, outer legs mapped into the classes.
+//! Every check runs on the strict and on the lax representation ("repr" field of the input).
+use crate::ctx::{guard, Ctx, Rng};
+use crate::model::*;
+use open_hypergraphs::array::vec::*;
+use open_hypergraphs::category::*;
+use open_hypergraphs::finite_function::FiniteFunction;
+use open_hypergraphs::lax;
+use open_hypergraphs::semifinite::SemifiniteFunction;
+use serde_json::{json, Value};
+
+type Check = fn(&mut Ctx, &Value);
+const CHECKS: &[(&str, Check)] = &[
+    ("dagger", chk_dagger),
+    ("dagger-compose", chk_dagger_compose),
+    ("dagger-tensor", chk_dagger_tensor),
+    ("dagger-structure", chk_dagger_structure),
+    ("spider-build", chk_spider_build),
+    ("spider-fusion", chk_spider_fusion),
+    ("id-twist-spider", chk_id_twist_spider),
+];
+
+// ------------------------------------------------------------------------------------------------
+// helpers (self-contained; duplicated from c03.rs on purpose)
+// ------------------------------------------------------------------------------------------------
+/// operand: a plain model plus pending same-label identifications
+#[derive(Clone, Debug)]
+struct Opd {
+    m: M,
+    q: Vec<(usize, usize)>,
+}
+impl Opd {
+    fn json(&self) -> Value {
+        let mut v = self.m.json();
+        if !self.q.is_empty() {
+            v["q"] = json!(self.q.iter().map(|&(a, b)| vec![a, b]).collect::<Vec<_>>());
+        }
+        v
+    }
+    fn from_json(v: &Value) -> Option<Opd> {
+        let m = M::from_json(v)?;
+        if !m.valid() {
+            return None;
+        }
+        let mut q = vec![];
+        if let Some(arr) = v.get("q").and_then(|x| x.as_array()) {
+            for p in arr {
+                let p = p.as_array()?;
+                if p.len() != 2 {
+                    return None;
+                }
+                let (a, b) = (p[0].as_u64()? as usize, p[1].as_u64()? as usize);
+                if a >= m.w.len() || b >= m.w.len() || m.w[a] != m.w[b] {
+                    return None;
+                }
+                q.push((a, b));
+            }
+        }
+        Some(Opd { m, q })
+    }
+    /// the diagram denoted by the operand
+    fn sem(&self) -> M {
+        quotient(&self.m, &self.q).expect("same-label identifications").0
+    }
+}
+
+#[derive(Clone)]
+enum D {
+    S(SOH),
+    L(LOH),
+}
+
+fn obj(w: &[u8]) -> SF<u8> {
+    SemifiniteFunction(VecArray(w.to_vec()))
+}
+
+fn build(o: &Opd, lax_repr: bool) -> D {
+    if lax_repr {
+        let mut l = o.m.to_lax();
+        for &(a, b) in &o.q {
+            l.unify(lax::NodeId(a), lax::NodeId(b));
+        }
+        D::L(l)
+    } else {
+        D::S(o.sem().to_strict())
+    }
+}
+
+/// raw reading of a library value: the model and the pending identifications, nothing applied
+fn d_raw(d: &D) -> Result<(M, Vec<(usize, usize)>), String> {
+    match d {
+        D::S(s) => strict_wf(s).map(|m| (m, vec![])),
+        D::L(l) => {
+            let h = &l.hypergraph;
+            if h.adjacency.len() != h.edges.len() {
+                return Err(format!("lax: {} adjacency entries for {} edges", h.adjacency.len(), h.edges.len()));
+            }
+            if h.quotient.0.len() != h.quotient.1.len() {
+                return Err("lax: quotient lists of different length".into());
+            }
+            let (m, q) = M::from_lax(l);
+            if !m.valid() {
+                return Err(format!("lax: node id out of range in {}", m.json()));
+            }
+            if q.iter().any(|&(a, b)| a >= m.w.len() || b >= m.w.len()) {
+                return Err(format!("lax: pending identification out of range {:?}", q));
+            }
+            Ok((m, q))
+        }
+    }
+}
+
+/// the diagram denoted by a library value (pending identifications applied with the reference quotient)
+fn d_model(d: &D) -> Result<M, String> {
+    let (m, q) = d_raw(d)?;
+    quotient(&m, &q).map(|x| x.0).ok_or_else(|| format!("pending identifications {:?} join different labels in {}", q, m.json()))
+}
+
+enum E {
+    V(usize),
+    Id(Vec<u8>),
+    Tw(Vec<u8>, Vec<u8>),
+    C(Box<E>, Box<E>),
+    T(Box<E>, Box<E>),
+    Dg(Box<E>),
+}
+fn v(i: usize) -> E {
+    E::V(i)
+}
+fn id(w: &[u8]) -> E {
+    E::Id(w.to_vec())
+}
+fn tw(a: &[u8], b: &[u8]) -> E {
+    E::Tw(a.to_vec(), b.to_vec())
+}
+fn c(a: E, b: E) -> E {
+    E::C(Box::new(a), Box::new(b))
+}
+fn t(a: E, b: E) -> E {
+    E::T(Box::new(a), Box::new(b))
+}
+fn dg(a: E) -> E {
+    E::Dg(Box::new(a))
+}
+fn cat(a: &[u8], b: &[u8]) -> Vec<u8> {
+    [a, b].concat()
+}
+
+fn lib_dagger(d: &D) -> D {
+    match d {
+        D::S(x) => D::S(<SOH as Spider<VecKind>>::dagger(x)),
+        D::L(x) => D::L(<LOH as Spider<VecKind>>::dagger(x)),
+    }
+}
+
+fn lib_compose(x: &D, y: &D) -> Option<D> {
+    Some(match (x, y) {
+        (D::S(x), D::S(y)) => D::S(Arrow::compose(x, y)?),
+        (D::L(x), D::L(y)) => D::L(Arrow::compose(x, y)?),
+        _ => unreachable!(),
+    })
+}
+
+/// evaluate with the real library (may panic: callers wrap it in `guard`)
+fn eval_lib(e: &E, vars: &[D], lax_repr: bool) -> Option<D> {
+    Some(match e {
+        E::V(i) => vars[*i].clone(),
+        E::Id(w) => {
+            if lax_repr {
+                D::L(<LOH as Arrow>::identity(w.clone()))
+            } else {
+                D::S(<SOH as Arrow>::identity(obj(w)))
+            }
+        }
+        E::Tw(a, b) => {
+            if lax_repr {
+                D::L(<LOH as SymmetricMonoidal>::twist(a.clone(), b.clone()))
+            } else {
+                D::S(<SOH as SymmetricMonoidal>::twist(obj(a), obj(b)))
+            }
+        }
+        E::C(a, b) => {
+            let (x, y) = (eval_lib(a, vars, lax_repr)?, eval_lib(b, vars, lax_repr)?);
+            lib_compose(&x, &y)?
+        }
+        E::T(a, b) => {
+            let (x, y) = (eval_lib(a, vars, lax_repr)?, eval_lib(b, vars, lax_repr)?);
+            match (&x, &y) {
+                (D::S(x), D::S(y)) => D::S(Monoidal::tensor(x, y)),
+                (D::L(x), D::L(y)) => D::L(Monoidal::tensor(x, y)),
+                _ => unreachable!(),
+            }
+        }
+        E::Dg(a) => lib_dagger(&eval_lib(a, vars, lax_repr)?),
+    })
+}
+
+/// evaluate with the reference operations (definitions)
+fn eval_ref(e: &E, vars: &[M]) -> Option<M> {
+    Some(match e {
+        E::V(i) => vars[*i].clone(),
+        E::Id(w) => identity(w),
+        E::Tw(a, b) => twist(a, b),
+        E::C(a, b) => compose(&eval_ref(a, vars)?, &eval_ref(b, vars)?)?,
+        E::T(a, b) => tensor(&eval_ref(a, vars)?, &eval_ref(b, vars)?),
+        E::Dg(a) => dagger(&eval_ref(a, vars)?),
+    })
+}
+
+fn is_lax(input: &Value) -> bool {
+    input["repr"].as_str() == Some("lax")
+}
+
+/// Evaluate one law; returns true when its hypotheses held (all compositions defined).
+fn law(ctx: &mut Ctx, check: &str, name: &str, input: &Value, ops: &[Opd], lhs: &E, rhs: &E) -> bool {
+    let lax_repr = is_lax(input);
+    let refs: Vec<M> = ops.iter().map(|o| o.sem()).collect();
+    let vars: Vec<D> = match guard(|| ops.iter().map(|o| build(o, lax_repr)).collect::<Vec<D>>()) {
+        Ok(v) => v,
+        Err(p) => {
+            ctx.fail(check, "C04.no-panic", input, json!(format!("building the operands: {}", p)), json!("operands are valid"));
+            return false;
+        }
+    };
+    let mut got: Vec<Option<M>> = vec![];
+    let mut exp: Vec<Option<M>> = vec![];
+    for (side, e) in [("lhs", lhs), ("rhs", rhs)] {
+        let r = eval_ref(e, &refs);
+        let mut mine = None;
+        match guard(|| eval_lib(e, &vars, lax_repr)) {
+            Err(p) => ctx.fail(check, "C04.no-panic", input, json!(format!("{} {}: panic: {}", name, side, p)), json!("no panic")),
+            Ok(x) => {
+                if x.is_some() != r.is_some() {
+                    ctx.fail(
+                        check,
+                        &format!("C04.{}-defined", name),
+                        input,
+                        json!(format!("{}: library {}", side, if x.is_some() { "Some" } else { "None" })),
+                        json!(if r.is_some() { "Some (boundary types match)" } else { "None (boundary types differ)" }),
+                    );
+                }
+                if let Some(d) = x {
+                    match d_model(&d) {
+                        Err(why) => ctx.fail(check, "C04.wf", input, json!(format!("{} {}: {}", name, side, why)), json!("well-formed result")),
+                        Ok(m) => {
+                            if let Some(r) = &r {
+                                if !is_iso(&m, r) {
+                                    ctx.fail(check, &format!("C04.{}-ref", name), input, json!({"side": side, "library": m.json()}), r.json());
+                                }
+                            }
+                            mine = Some(m);
+                        }
+                    }
+                }
+            }
+        }
+        got.push(mine);
+        exp.push(r);
+    }
+    if let (Some(rl), Some(rr)) = (&exp[0], &exp[1]) {
+        if !is_iso(rl, rr) {
+            ctx.fail(check, "C04.oracle-self", input, json!({"law": name, "lhs": rl.json()}), rr.json());
+        }
+        if let (Some(ml), Some(mr)) = (&got[0], &got[1]) {
+            if !is_iso(ml, mr) {
+                ctx.fail(check, &format!("C04.{}", name), input, json!({"lhs": ml.json()}), json!({"rhs": mr.json()}));
+            }
+        }
+        true
+    } else {
+        false
+    }
+}
+
+fn u8s(v: &Value) -> Option<Vec<u8>> {
+    v.as_array()?.iter().map(|x| x.as_u64().map(|y| y as u8)).collect()
+}
+fn uss(v: &Value) -> Option<Vec<usize>> {
+    v.as_array()?.iter().map(|x| x.as_u64().map(|y| y as usize)).collect()
+}
+fn opds(input: &Value, names: &[&str]) -> Option<Vec<Opd>> {
+    names.iter().map(|n| Opd::from_json(&input[*n])).collect()
+}
+
+fn ff(table: &[usize], target: usize) -> Option<FF> {
+    FiniteFunction::new(VecArray(table.to_vec()), target)
+}
+
+/// the library's spider constructor on legs with explicit codomains
+fn lib_spider(s: &FF, t: &FF, w: &[u8], lax_repr: bool) -> Option<D> {
+    if lax_repr {
+        <LOH as Spider<VecKind>>::spider(s.clone(), t.clone(), w.to_vec()).map(D::L)
+    } else {
+        <SOH as Spider<VecKind>>::spider(s.clone(), t.clone(), obj(w)).map(D::S)
+    }
+}
+
+fn lib_half_spider(s: &FF, w: &[u8], lax_repr: bool) -> Option<D> {
+    if lax_repr {
+        <LOH as Spider<VecKind>>::half_spider(s.clone(), w.to_vec()).map(D::L)
+    } else {
+        <SOH as Spider<VecKind>>::half_spider(s.clone(), obj(w)).map(D::S)
+    }
+}
+
+/// library source/target types
+fn lib_types(d: &D) -> (Vec<u8>, Vec<u8>) {
+    match d {
+        D::S(x) => (Arrow::source(x).0 .0, Arrow::target(x).0 .0),
+        D::L(x) => (Arrow::source(x), Arrow::target(x)),
+    }
+}
+
+fn discrete(m: &M) -> bool {
+    m.x.is_empty() && m.src.is_empty() && m.tgt.is_empty()
+}
+
+// ------------------------------------------------------------------------------------------------
+// checks
+// ------------------------------------------------------------------------------------------------
+/// input {"repr","f"}: f† has the interfaces exchanged and everything else untouched; f†† = f
+fn chk_dagger(ctx: &mut Ctx, input: &Value) {
+    let Some(o) = opds(input, &["f"]) else { return };
+    let lax_repr = is_lax(input);
+    ctx.case("dagger", input, o[0].m.nontrivial() && o[0].m.s != o[0].m.t);
+    let f = match guard(|| build(&o[0], lax_repr)) {
+        Ok(f) => f,
+        Err(p) => return ctx.fail("dagger", "C04.no-panic", input, json!(format!("building the operand: {}", p)), json!("valid operand")),
+    };
+    // what the operand looks like inside the library before the call
+    let (m0, q0) = match d_raw(&f) {
+        Ok(x) => x,
+        Err(why) => return ctx.fail("dagger", "C04.wf", input, json!(why), json!("well-formed operand")),
+    };
+    let d1 = match guard(|| lib_dagger(&f)) {
+        Ok(d) => d,
+        Err(p) => return ctx.fail("dagger", "C04.no-panic", input, json!(format!("dagger: panic: {}", p)), json!("returns")),
+    };
+    match d_raw(&d1) {
+        Err(why) => ctx.fail("dagger", "C04.wf", input, json!(why), json!("well-formed result")),
+        Ok((m1, q1)) => {
+            if m1.s != m0.t || m1.t != m0.s {
+                ctx.fail("dagger", "C04.dagger-swap", input, json!({"s": m1.s, "t": m1.t}), json!({"s": m0.t, "t": m0.s}));
+            }
+            if m1.w != m0.w || m1.x != m0.x || m1.src != m0.src || m1.tgt != m0.tgt {
+                ctx.fail("dagger", "C04.dagger-untouched", input, m1.json(), dagger(&m0).json());
+            }
+            if q1 != q0 {
+                ctx.fail("dagger", "C04.dagger-untouched", input, json!({"pending": q1}), json!({"pending": q0}));
+            }
+        }
+    }
+    // types through the library's own accessors
+    match guard(|| (lib_types(&f), lib_types(&d1))) {
+        Err(p) => ctx.fail("dagger", "C04.no-panic", input, json!(format!("source/target: panic: {}", p)), json!("returns")),
+        Ok(((a, b), (a1, b1))) => {
+            if a1 != b || b1 != a {
+                ctx.fail("dagger", "C04.dagger-type", input, json!({"source": a1, "target": b1}), json!({"source": b, "target": a}));
+            }
+        }
+    }
+    // involution, exactly
+    match guard(|| lib_dagger(&d1)) {
+        Err(p) => ctx.fail("dagger", "C04.no-panic", input, json!(format!("dagger twice: panic: {}", p)), json!("returns")),
+        Ok(d2) => match d_raw(&d2) {
+            Err(why) => ctx.fail("dagger", "C04.wf", input, json!(why), json!("well-formed result")),
+            Ok((m2, q2)) => {
+                if m2 != m0 || q2 != q0 {
+                    ctx.fail("dagger", "C04.dagger-involution", input, json!({"m": m2.json(), "pending": q2}), json!({"m": m0.json(), "pending": q0}));
+                }
+            }
+        },
+    }
+    // and up to isomorphism against the reference
+    law(ctx, "dagger", "dagger-involution", input, &o, &dg(dg(v(0))), &v(0));
+}
+
+/// input {"repr","f","g"}: (f;g)† ≅ g†;f†  (both undefined when the boundary types differ)
+fn chk_dagger_compose(ctx: &mut Ctx, input: &Value) {
+    let Some(o) = opds(input, &["f", "g"]) else { return };
+    let (f, g) = (o[0].sem(), o[1].sem());
+    let hyp = f.target_type() == g.source_type();
+    ctx.case("dagger-compose", input, hyp && f.nontrivial() && g.nontrivial());
+    law(ctx, "dagger-compose", "dagger-compose", input, &o, &dg(c(v(0), v(1))), &c(dg(v(1)), dg(v(0))));
+    // the wrong order must be rejected whenever its types do not match
+    law(ctx, "dagger-compose", "dagger-compose-order", input, &o, &c(dg(v(0)), dg(v(1))), &dg(c(v(1), v(0))));
+}
+
+/// input {"repr","f","g"}: (f⊗g)† ≅ f†⊗g†
+fn chk_dagger_tensor(ctx: &mut Ctx, input: &Value) {
+    let Some(o) = opds(input, &["f", "g"]) else { return };
+    ctx.case("dagger-tensor", input, o[0].m.nontrivial() && o[1].m.nontrivial());
+    law(ctx, "dagger-tensor", "dagger-tensor", input, &o, &dg(t(v(0), v(1))), &t(dg(v(0)), dg(v(1))));
+}
+
+/// input {"repr","a","b"}: id† ≅ id, σ(a,b)† ≅ σ(b,a), σ(a,b);σ(a,b)† ≅ id
+fn chk_dagger_structure(ctx: &mut Ctx, input: &Value) {
+    let (Some(a), Some(b)) = (u8s(&input["a"]), u8s(&input["b"])) else { return };
+    ctx.case("dagger-structure", input, !a.is_empty() && !b.is_empty());
+    law(ctx, "dagger-structure", "dagger-identity", input, &[], &dg(id(&a)), &id(&a));
+    law(ctx, "dagger-structure", "dagger-twist", input, &[], &dg(tw(&a, &b)), &tw(&b, &a));
+    law(ctx, "dagger-structure", "twist-unitary", input, &[], &c(tw(&a, &b), dg(tw(&a, &b))), &id(&cat(&a, &b)));
+}
+
+/// input {"repr","s","t","w","s_target","t_target"}: spider construction succeeds exactly when both
+/// legs land in the node list w
+fn chk_spider_build(ctx: &mut Ctx, input: &Value) {
+    let (Some(s), Some(tt), Some(w)) = (uss(&input["s"]), uss(&input["t"]), u8s(&input["w"])) else { return };
+    let (Some(sc), Some(tc)) = (input["s_target"].as_u64().map(|x| x as usize), input["t_target"].as_u64().map(|x| x as usize)) else { return };
+    // the legs must be finite functions in their own right
+    let (Some(fs), Some(ft)) = (ff(&s, sc), ff(&tt, tc)) else { return };
+    let lax_repr = is_lax(input);
+    let n = w.len();
+    ctx.case("spider-build", input, n > 0 && s.len() + tt.len() > 0);
+    let expected = spider(&s, &tt, &w); // None iff some leg value is outside 0..n
+    let codomains_ok = sc == n && tc == n;
+    let got = match guard(|| lib_spider(&fs, &ft, &w, lax_repr)) {
+        Ok(g) => g,
+        Err(p) => return ctx.fail("spider-build", "C04.no-panic", input, json!(format!("spider: panic: {}", p)), json!("Some/None")),
+    };
+    match (&got, &expected) {
+        (Some(_), None) => ctx.fail("spider-build", "C04.spider-reject", input, json!("Some"), json!("None: a leg leaves the node list")),
+        (None, Some(e)) if codomains_ok => ctx.fail("spider-build", "C04.spider-accept", input, json!("None"), e.json()),
+        // codomain differs from the number of nodes although every value is a node: both answers conform
+        (None, _) => {}
+        (Some(d), Some(e)) => match d_raw(d) {
+            Err(why) => ctx.fail("spider-build", "C04.wf", input, json!(why), e.json()),
+            Ok((m, q)) => {
+                if !discrete(&m) || !q.is_empty() {
+                    ctx.fail("spider-build", "C04.spider-discrete", input, json!({"m": m.json(), "pending": q}), e.json());
+                }
+                if !is_iso(&m, e) {
+                    ctx.fail("spider-build", "C04.spider-legs", input, m.json(), e.json());
+                }
+                // dagger of a spider is the spider with the legs exchanged
+                match guard(|| (lib_dagger(d), lib_spider(&ft, &fs, &w, lax_repr))) {
+                    Err(p) => ctx.fail("spider-build", "C04.no-panic", input, json!(format!("dagger of spider: panic: {}", p)), json!("returns")),
+                    Ok((dd, Some(sw))) => match (d_model(&dd), d_model(&sw)) {
+                        (Ok(a), Ok(b)) => {
+                            if !is_iso(&a, &b) || !is_iso(&a, &dagger(e)) {
+                                ctx.fail("spider-build", "C04.spider-dagger", input, json!({"dagger": a.json(), "swapped": b.json()}), dagger(e).json());
+                            }
+                        }
+                        (Err(why), _) | (_, Err(why)) => ctx.fail("spider-build", "C04.wf", input, json!(why), json!("well-formed")),
+                    },
+                    Ok((_, None)) => ctx.fail("spider-build", "C04.spider-accept", input, json!("spider(t,s,w) = None although spider(s,t,w) = Some"), dagger(e).json()),
+                }
+            }
+        },
+    }
+    // half spider: t = identity on the leg's codomain
+    let id_t: Vec<usize> = (0..sc).collect();
+    if tt == id_t && tc == sc {
+        match guard(|| lib_half_spider(&fs, &w, lax_repr)) {
+            Err(p) => ctx.fail("spider-build", "C04.no-panic", input, json!(format!("half_spider: panic: {}", p)), json!("Some/None")),
+            Ok(h) => match (h, &expected) {
+                (Some(_), None) => ctx.fail("spider-build", "C04.spider-reject", input, json!("half_spider: Some"), json!("None")),
+                (None, Some(e)) if codomains_ok => ctx.fail("spider-build", "C04.spider-accept", input, json!("half_spider: None"), e.json()),
+                (None, _) => {}
+                (Some(d), Some(e)) => match d_model(&d) {
+                    Err(why) => ctx.fail("spider-build", "C04.wf", input, json!(format!("half_spider: {}", why)), e.json()),
+                    Ok(m) => {
+                        if !discrete(&m) || !is_iso(&m, e) {
+                            ctx.fail("spider-build", "C04.half-spider", input, m.json(), e.json());
+                        }
+                    }
+                },
+            },
+        }
+    }
+}
+
+/// the fused spider, from the statement: nodes = classes of w ⊔ w2 under t[i] ~ s2[i], labelled by
+/// their members; legs = outer legs mapped into the classes.  None when the shared boundary types differ.
+fn fusion_oracle(s: &[usize], t1: &[usize], w: &[u8], s2: &[usize], t2: &[usize], w2: &[u8]) -> Option<M> {
+    if t1.len() != s2.len() {
+        return None;
+    }
+    for i in 0..t1.len() {
+        if w[t1[i]] != w2[s2[i]] {
+            return None;
+        }
+    }
+    let n = w.len();
+    let pairs: Vec<(usize, usize)> = (0..t1.len()).map(|i| (t1[i], n + s2[i])).collect();
+    let (cls, k) = classes(n + w2.len(), &pairs);
+    let mut labels: Vec<Option<u8>> = vec![None; k];
+    for i in 0..n + w2.len() {
+        let l = if i < n { w[i] } else { w2[i - n] };
+        match labels[cls[i]] {
+            None => labels[cls[i]] = Some(l),
+            Some(l0) => assert_eq!(l0, l, "a class of the shared boundary carries one label"),
+        }
+    }
+    Some(M {
+        w: labels.into_iter().map(|l| l.unwrap()).collect(),
+        x: vec![],
+        src: vec![],
+        tgt: vec![],
+        s: s.iter().map(|&i| cls[i]).collect(),
+        t: t2.iter().map(|&i| cls[n + i]).collect(),
+    })
+}
+
+/// input {"repr","s","t","w","s2","t2","w2"}: spider(s,t,w) ; spider(s2,t2,w2)
+fn chk_spider_fusion(ctx: &mut Ctx, input: &Value) {
+    let (Some(s), Some(t1), Some(w)) = (uss(&input["s"]), uss(&input["t"]), u8s(&input["w"])) else { return };
+    let (Some(s2), Some(t2), Some(w2)) = (uss(&input["s2"]), uss(&input["t2"]), u8s(&input["w2"])) else { return };
+    let (n, n2) = (w.len(), w2.len());
+    if s.iter().chain(t1.iter()).any(|&i| i >= n) || s2.iter().chain(t2.iter()).any(|&i| i >= n2) {
+        return;
+    }
+    let lax_repr = is_lax(input);
+    let expected = fusion_oracle(&s, &t1, &w, &s2, &t2, &w2);
+    let merging = expected.as_ref().map(|e| e.w.len() < n + n2).unwrap_or(false);
+    ctx.case("spider-fusion", input, merging);
+    let legs = (ff(&s, n).unwrap(), ff(&t1, n).unwrap(), ff(&s2, n2).unwrap(), ff(&t2, n2).unwrap());
+    let built = guard(|| (lib_spider(&legs.0, &legs.1, &w, lax_repr), lib_spider(&legs.2, &legs.3, &w2, lax_repr)));
+    let (a, b) = match built {
+        Err(p) => return ctx.fail("spider-fusion", "C04.no-panic", input, json!(format!("spider: panic: {}", p)), json!("Some")),
+        Ok((Some(a), Some(b))) => (a, b),
+        Ok(_) => return ctx.fail("spider-fusion", "C04.spider-accept", input, json!("None"), json!("Some: all legs land in the node lists")),
+    };
+    let got = match guard(|| lib_compose(&a, &b)) {
+        Err(p) => return ctx.fail("spider-fusion", "C04.no-panic", input, json!(format!("compose: panic: {}", p)), json!("Some/None")),
+        Ok(g) => g,
+    };
+    match (got, expected) {
+        (None, None) => {}
+        (Some(_), None) => ctx.fail("spider-fusion", "C04.fusion-defined", input, json!("Some"), json!("None: the shared boundary types differ")),
+        (None, Some(e)) => ctx.fail("spider-fusion", "C04.fusion-defined", input, json!("None"), e.json()),
+        (Some(d), Some(e)) => match d_model(&d) {
+            Err(why) => ctx.fail("spider-fusion", "C04.wf", input, json!(why), e.json()),
+            Ok(m) => {
+                if !discrete(&m) {
+                    ctx.fail("spider-fusion", "C04.fusion-discrete", input, m.json(), e.json());
+                }
+                let mut lw = m.w.clone();
+                let mut ew = e.w.clone();
+                lw.sort();
+                ew.sort();
+                if lw != ew {
+                    ctx.fail("spider-fusion", "C04.fusion-nodes", input, json!({"node labels": m.w}), json!({"one node per class": e.w}));
+                }
+                if !is_iso(&m, &e) {
+                    ctx.fail("spider-fusion", "C04.fusion", input, m.json(), e.json());
+                }
+                // the result is again a spider: constructing it from the fused legs gives the same arrow
+                let k = e.w.len();
+                match guard(|| lib_spider(&ff(&e.s, k).unwrap(), &ff(&e.t, k).unwrap(), &e.w, lax_repr)) {
+                    Err(p) => ctx.fail("spider-fusion", "C04.no-panic", input, json!(format!("spider of fused legs: panic: {}", p)), json!("Some")),
+                    Ok(None) => ctx.fail("spider-fusion", "C04.spider-accept", input, json!("None for the fused legs"), e.json()),
+                    Ok(Some(f)) => match d_model(&f) {
+                        Err(why) => ctx.fail("spider-fusion", "C04.wf", input, json!(why), e.json()),
+                        Ok(fm) => {
+                            if !is_iso(&fm, &m) {
+                                ctx.fail("spider-fusion", "C04.fusion-is-spider", input, m.json(), fm.json());
+                            }
+                        }
+                    },
+                }
+            }
+        },
+    }
+}
+
+/// input {"repr","a","b"}: id(a) and σ(a,b) are spiders (discrete, with the legs of their definitions)
+fn chk_id_twist_spider(ctx: &mut Ctx, input: &Value) {
+    let (Some(a), Some(b)) = (u8s(&input["a"]), u8s(&input["b"])) else { return };
+    let lax_repr = is_lax(input);
+    ctx.case("id-twist-spider", input, !a.is_empty() && !b.is_empty());
+    let ab = cat(&a, &b);
+    let (na, nb) = (a.len(), b.len());
+    let idl: Vec<usize> = (0..na + nb).collect();
+    // σ(a,b): the i-th input wire is the wire that leaves at position (i+nb) mod (na+nb)
+    let tw_t: Vec<usize> = (na..na + nb).chain(0..na).collect();
+    let cases: Vec<(&str, E, Vec<usize>, Vec<usize>, Vec<u8>)> = vec![
+        ("identity-is-spider", id(&a), (0..na).collect(), (0..na).collect(), a.clone()),
+        ("twist-is-spider", tw(&a, &b), idl.clone(), tw_t, ab.clone()),
+    ];
+    for (name, e, ls, lt, w) in cases {
+        let n = w.len();
+        let got = guard(|| (eval_lib(&e, &[], lax_repr), lib_spider(&ff(&ls, n).unwrap(), &ff(&lt, n).unwrap(), &w, lax_repr)));
+        match got {
+            Err(p) => ctx.fail("id-twist-spider", "C04.no-panic", input, json!(format!("{}: panic: {}", name, p)), json!("returns")),
+            Ok((Some(x), Some(y))) => match (d_raw(&x), d_model(&y)) {
+                (Ok((mx, qx)), Ok(my)) => {
+                    let e_m = M { w: w.clone(), x: vec![], src: vec![], tgt: vec![], s: ls.clone(), t: lt.clone() };
+                    if !discrete(&mx) || !qx.is_empty() {
+                        ctx.fail("id-twist-spider", &format!("C04.{}-discrete", name), input, json!({"m": mx.json(), "pending": qx}), e_m.json());
+                    }
+                    if !is_iso(&mx, &my) || !is_iso(&mx, &e_m) {
+                        ctx.fail("id-twist-spider", &format!("C04.{}", name), input, json!({"arrow": mx.json(), "spider": my.json()}), e_m.json());
+                    }
+                }
+                (Err(why), _) | (_, Err(why)) => ctx.fail("id-twist-spider", "C04.wf", input, json!(format!("{}: {}", name, why)), json!("well-formed")),
+            },
+            Ok(_) => ctx.fail("id-twist-spider", "C04.spider-accept", input, json!(format!("{}: None", name)), json!("Some")),
+        }
+    }
+}
+
+// ------------------------------------------------------------------------------------------------
+// generators
+// ------------------------------------------------------------------------------------------------
+fn sp(w: Vec<u8>, s: Vec<usize>, t: Vec<usize>) -> M {
+    M { w, x: vec![], src: vec![], tgt: vec![], s, t }
+}
+
+fn corners() -> Vec<M> {
+    let mut v = corner_models();
+    v.extend(vec![
+        sp(vec![0, 0, 1], vec![0, 1, 2], vec![1, 0, 2]),
+        sp(vec![0], vec![0, 0], vec![0, 0]),
+        sp(vec![0], vec![], vec![0, 0]),
+        sp(vec![0], vec![0, 0], vec![]),
+        sp(vec![0, 0], vec![0, 1], vec![0, 0]),
+        sp(vec![0, 0], vec![0], vec![0, 1]),
+        sp(vec![0, 1, 0], vec![0], vec![2]),
+        M { w: vec![0, 0], x: vec![10; 5], src: vec![vec![0]; 5], tgt: vec![vec![1]; 5], s: vec![0], t: vec![1] },
+        M { w: vec![0], x: vec![10], src: vec![vec![0; 5]], tgt: vec![vec![0; 5]], s: vec![0; 4], t: vec![0; 4] },
+        M { w: vec![0, 0], x: vec![10, 11], src: vec![vec![0], vec![0]], tgt: vec![vec![1], vec![1]], s: vec![0], t: vec![1, 1] },
+        M { w: vec![0, 0, 0], x: vec![10, 10, 11], src: vec![vec![0], vec![1], vec![2]], tgt: vec![vec![1], vec![2], vec![0]], s: vec![0, 1], t: vec![2, 0] },
+        M { w: vec![1], x: vec![10, 11], src: vec![vec![], vec![]], tgt: vec![vec![], vec![0]], s: vec![0], t: vec![0] },
+        // an edge whose sources and targets differ, and a palindromic interface: a dagger that also
+        // reversed the hyperedges, or that reversed the interface lists, would show here
+        M { w: vec![0, 1, 1], x: vec![10], src: vec![vec![0, 1]], tgt: vec![vec![2]], s: vec![0, 1, 1], t: vec![2, 1] },
+        twist(&[0, 1], &[1]),
+        sp(vec![0, 0], vec![0], vec![0; 8]),
+        sp(vec![0, 0], vec![0; 8], vec![1, 0]),
+    ]);
+    v
+}
+
+fn binomial_pairs(m: usize, levels: &[usize]) -> (Vec<usize>, Vec<usize>) {
+    let (mut a, mut b) = (vec![], vec![]);
+    for &l in levels {
+        if l == 0 {
+            for i in 0..m {
+                a.push(i);
+                b.push(i);
+            }
+        } else {
+            let step = 1usize << l;
+            let mut j = 0;
+            while j + step / 2 < m {
+                a.push(j);
+                b.push(j + step / 2);
+                j += step;
+            }
+        }
+    }
+    (a, b)
+}
+
+fn random_q(r: &mut Rng, m: &M) -> Vec<(usize, usize)> {
+    let n = m.w.len();
+    let mut q = vec![];
+    if n == 0 {
+        return q;
+    }
+    for _ in 0..r.below(3) {
+        let a = r.below(n);
+        let cands: Vec<usize> = (0..n).filter(|&i| m.w[i] == m.w[a]).collect();
+        q.push((a, cands[r.below(cands.len())]));
+    }
+    q
+}
+
+fn rand_opd(r: &mut Rng, b: Bounds, ty: Option<&[u8]>, lax_repr: bool) -> Opd {
+    let m = match ty {
+        Some(ty) => random_model_with_source(r, b, ty),
+        None => random_model(r, b),
+    };
+    let q = if lax_repr && r.chance(1, 2) { random_q(r, &m) } else { vec![] };
+    Opd { m, q }
+}
+
+fn all_maps(n: usize, maxlen: usize) -> Vec<Vec<usize>> {
+    let mut out = vec![vec![]];
+    if n == 0 {
+        return out;
+    }
+    let mut layer: Vec<Vec<usize>> = vec![vec![]];
+    for _ in 0..maxlen {
+        let mut next = vec![];
+        for l in &layer {
+            for x in 0..n {
+                let mut l2 = l.clone();
+                l2.push(x);
+                next.push(l2);
+            }
+        }
+        out.extend(next.iter().cloned());
+        layer = next;
+    }
+    out
+}
+
+/// (s, t, n) for all one-label cospans with n ≤ maxn nodes and legs of length ≤ maxleg
+fn all_cospans(maxn: usize, maxleg: usize) -> Vec<(Vec<usize>, Vec<usize>, usize)> {
+    let mut out = vec![];
+    for n in 0..=maxn {
+        let maps = all_maps(n, maxleg);
+        for s in &maps {
+            for t in &maps {
+                out.push((s.clone(), t.clone(), n));
+            }
+        }
+    }
+    out
+}
+
+fn all_types(maxlen: usize) -> Vec<Vec<u8>> {
+    all_maps(2, maxlen).into_iter().map(|l| l.into_iter().map(|x| x as u8).collect()).collect()
+}
+
+fn fusion_input(repr: &str, s: &[usize], t: &[usize], w: &[u8], s2: &[usize], t2: &[usize], w2: &[u8]) -> Value {
+    json!({"repr": repr, "s": s, "t": t, "w": w, "s2": s2, "t2": t2, "w2": w2})
+}
+
+/// random labelled cospan pair with matching boundary types (unless `break_types`)
+fn random_fusion(r: &mut Rng, maxn: usize, maxleg: usize, labels: usize) -> (Vec<usize>, Vec<usize>, Vec<u8>, Vec<usize>, Vec<usize>, Vec<u8>) {
+    let n = r.range(0, maxn);
+    let w: Vec<u8> = (0..n).map(|_| r.below(labels) as u8).collect();
+    let n2 = r.range(0, maxn);
+    let mut w2: Vec<u8> = (0..n2).map(|_| r.below(labels) as u8).collect();
+    let leg = |r: &mut Rng, n: usize| -> Vec<usize> {
+        if n == 0 {
+            vec![]
+        } else {
+            let l = r.range(0, maxleg);
+            // sometimes confine the leg to a few nodes (non-surjective, highly non-injective)
+            let span = if r.chance(1, 3) { r.range(1, n.min(2)) } else { n };
+            r.vec_below(l, span)
+        }
+    };
+    let s = leg(r, n);
+    let t1 = leg(r, n);
+    // shared boundary: choose s2[i] among the nodes of w2 with the label of w[t1[i]] (adding one if needed)
+    let mut s2 = vec![];
+    for &i in &t1 {
+        let cands: Vec<usize> = (0..w2.len()).filter(|&k| w2[k] == w[i]).collect();
+        if cands.is_empty() || r.chance(1, 8) {
+            w2.push(w[i]);
+            s2.push(w2.len() - 1);
+        } else {
+            s2.push(cands[r.below(cands.len())]);
+        }
+    }
+    let t2 = leg(r, w2.len());
+    (s, t1, w, s2, t2, w2)
+}
+
+pub fn run(ctx: &mut Ctx) {
+    if let Some((name, input)) = ctx.replay.clone() {
+        for (n, chk) in CHECKS {
+            if *n == name {
+                chk(ctx, &input);
+            }
+        }
+        return;
+    }
+    let thorough = ctx.thorough();
+    let cs = corners();
+    let j = |m: &M| m.json();
+
+    for repr in ["strict", "lax"] {
+        let lax_repr = repr == "lax";
+
+        // ---------------- dagger laws: corners (all pairs), deep merges, random -------------------------
+        for f in &cs {
+            chk_dagger(ctx, &json!({"repr": repr, "f": j(f)}));
+            for g in &cs {
+                chk_dagger_compose(ctx, &json!({"repr": repr, "f": j(f), "g": j(g)}));
+                chk_dagger_tensor(ctx, &json!({"repr": repr, "f": j(f), "g": j(g)}));
+            }
+        }
+        // a lax operand with pending identifications (also joining the two interfaces)
+        chk_dagger(ctx, &json!({"repr": repr, "f": {"w": [0, 0, 1, 0], "x": [10], "src": [[0, 2]], "tgt": [[3]], "s": [0, 2], "t": [3, 1, 1], "q": [[3, 1], [0, 0]]}}));
+        let tys = all_types(if thorough { 3 } else { 2 });
+        for a in &tys {
+            for b in &tys {
+                chk_dagger_structure(ctx, &json!({"repr": repr, "a": a, "b": b}));
+                chk_id_twist_spider(ctx, &json!({"repr": repr, "a": a, "b": b}));
+            }
+        }
+        chk_dagger_structure(ctx, &json!({"repr": repr, "a": [0, 1, 0, 0, 1, 1, 0], "b": [1, 1, 0, 1, 0]}));
+        chk_id_twist_spider(ctx, &json!({"repr": repr, "a": [0, 1, 0, 0, 1, 1, 0], "b": [1, 1, 0, 1, 0]}));
+        for (l1, l2) in [(vec![0usize, 1, 2, 3, 4, 5], vec![0usize]), (vec![5, 4, 3, 2, 1, 0], vec![1, 3, 5]), (vec![1, 2], vec![0, 3, 4, 5])] {
+            let m = 32;
+            let (ft, gs) = binomial_pairs(m, &l1);
+            let (gt, _) = binomial_pairs(m, &l2);
+            let f = sp(vec![0; m], vec![0, m - 1, 5], ft);
+            let mut g = sp(vec![0; m], gs, gt);
+            g.x = vec![10];
+            g.src = vec![vec![3, 31]];
+            g.tgt = vec![vec![16]];
+            chk_dagger_compose(ctx, &json!({"repr": repr, "f": j(&f), "g": j(&g)}));
+            chk_dagger_tensor(ctx, &json!({"repr": repr, "f": j(&f), "g": j(&g)}));
+            chk_dagger(ctx, &json!({"repr": repr, "f": j(&g)}));
+        }
+        let n = ctx.budget(4000, 120000);
+        for i in 0..n {
+            let b = if i % 4 == 0 { MEDIUM } else { SMALL };
+            let f = rand_opd(&mut ctx.rng, b, None, lax_repr);
+            let fty = f.sem().target_type();
+            let chain = ctx.rng.chance(3, 4);
+            let g = rand_opd(&mut ctx.rng, b, if chain { Some(&fty) } else { None }, lax_repr);
+            chk_dagger_compose(ctx, &json!({"repr": repr, "f": f.json(), "g": g.json()}));
+            if i % 3 == 0 {
+                chk_dagger(ctx, &json!({"repr": repr, "f": g.json()}));
+                chk_dagger_tensor(ctx, &json!({"repr": repr, "f": f.json(), "g": g.json()}));
+            }
+        }
+
+        // ---------------- spider construction / rejection -----------------------------------------------
+        // exhaustive: w ∈ {[], [0], [0,0], [0,1]}, leg tables of length ≤2 over values 0..=2 (2 is never a node),
+        // leg codomains n-1, n, n+1 (inputs whose table does not fit its own codomain are not finite functions: skipped)
+        let tables = all_maps(3, 2);
+        for w in [vec![], vec![0u8], vec![0, 0], vec![0, 1]] {
+            let n = w.len();
+            for s in &tables {
+                for t1 in &tables {
+                    for sc in [n.wrapping_sub(1), n, n + 1] {
+                        for tc in [n.wrapping_sub(1), n, n + 1] {
+                            if sc == usize::MAX || tc == usize::MAX {
+                                continue;
+                            }
+                            chk_spider_build(ctx, &json!({"repr": repr, "s": s, "t": t1, "w": w, "s_target": sc, "t_target": tc}));
+                        }
+                    }
+                }
+            }
+        }
+        // targeted rejections: exactly one bad leg, on either side; empty node list; codomain too small / too large
+        for (s, t1, w, sc, tc) in [
+            (vec![0usize, 3], vec![0usize, 1], vec![0u8, 1, 0], 4usize, 3usize), // s leaves, t lands
+            (vec![0, 1], vec![0, 3], vec![0, 1, 0], 3, 4),                       // t leaves, s lands
+            (vec![3], vec![3], vec![0, 1, 0], 4, 4),                             // both leave
+            (vec![0], vec![], vec![], 1, 0),                                     // no nodes at all, s has a leg
+            (vec![], vec![0], vec![], 0, 1),                                     // no nodes at all, t has a leg
+            (vec![], vec![], vec![], 0, 0),                                      // the empty spider
+            (vec![], vec![], vec![0, 1], 2, 2),                                  // no legs, two nodes
+            (vec![0, 1, 2], vec![0, 1, 2], vec![0, 1, 0], 3, 3),                 // half spider on the identity
+            (vec![2, 2, 0, 2], vec![0, 1, 2], vec![0, 1, 0], 3, 3),              // half spider, non-injective, non-surjective
+            (vec![1, 1], vec![0, 1], vec![0, 1, 0], 2, 2),                       // codomain 2 < 3 nodes (both answers conform)
+            (vec![1, 1], vec![0, 1, 2], vec![0, 1], 3, 3),                       // half-spider shape with a leaving identity leg
+            (vec![5, 5, 5, 5, 5, 5, 5, 5], vec![5], vec![0, 0, 0, 0, 0, 1], 6, 6), // multiplicity 8 on the last node
+            (vec![5, 6], vec![5], vec![0, 0, 0, 0, 0, 1], 7, 6),                 // off by one past the last node
+        ] {
+            chk_spider_build(ctx, &json!({"repr": repr, "s": s, "t": t1, "w": w, "s_target": sc, "t_target": tc}));
+        }
+        let n = ctx.budget(5000, 120000);
+        for _ in 0..n {
+            let nn = ctx.rng.range(0, 6);
+            let w: Vec<u8> = (0..nn).map(|_| ctx.rng.below(2) as u8).collect();
+            let leg = |r: &mut Rng| -> (Vec<usize>, usize) {
+                let l = r.range(0, 6);
+                let bad = r.chance(1, 4);
+                let hi = if bad { nn + 2 } else { nn };
+                let tab = if hi == 0 { vec![] } else { r.vec_below(l, hi) };
+                let need = tab.iter().map(|&x| x + 1).max().unwrap_or(0);
+                // codomain: the node count when possible (2/3), otherwise anything that fits the table
+                let cod = if need <= nn && r.chance(2, 3) { nn } else { need.max(r.range(0, nn + 2)) };
+                (tab, cod)
+            };
+            let (s, sc) = leg(&mut ctx.rng);
+            let (t1, tc) = if ctx.rng.chance(1, 5) { ((0..sc).collect(), sc) } else { leg(&mut ctx.rng) };
+            chk_spider_build(ctx, &json!({"repr": repr, "s": s, "t": t1, "w": w, "s_target": sc, "t_target": tc}));
+        }
+
+        // ---------------- spider fusion -----------------------------------------------------------------
+        // exhaustive, one label: all pairs of cospans with matching boundary length
+        let sets: Vec<Vec<(Vec<usize>, Vec<usize>, usize)>> = if thorough { vec![all_cospans(3, 3)] } else { vec![all_cospans(3, 2)] };
+        for set in &sets {
+            for (s, t1, n) in set {
+                for (s2, t2, n2) in set {
+                    if t1.len() != s2.len() {
+                        continue;
+                    }
+                    chk_spider_fusion(ctx, &fusion_input(repr, s, t1, &vec![0; *n], s2, t2, &vec![0; *n2]));
+                }
+            }
+        }
+        // two labels, exhaustive on 2+2 nodes with w = w2 = [0,1] and legs ≤2: includes every type mismatch
+        for (s, t1, _) in all_cospans(2, 2).iter().filter(|c| c.2 == 2) {
+            for (s2, t2, _) in all_cospans(2, 2).iter().filter(|c| c.2 == 2) {
+                chk_spider_fusion(ctx, &fusion_input(repr, s, t1, &[0, 1], s2, t2, &[0, 1]));
+            }
+        }
+        // corners: multiplicity larger than the node count, s == t non-injective, empty sides
+        for (s, t1, w, s2, t2, w2) in [
+            (vec![0usize], vec![0usize; 8], vec![0u8], vec![0usize, 1, 0, 1, 0, 1, 0, 1], vec![1usize, 0], vec![0u8, 0]),
+            (vec![0, 1], vec![0, 1, 0, 1, 0, 1], vec![0, 0], vec![0, 0, 1, 1, 2, 2], vec![0, 1, 2, 3], vec![0, 0, 0, 0]),
+            (vec![0, 1, 2], vec![0, 1, 2], vec![0, 0, 0], vec![0, 0, 0], vec![0, 0, 0], vec![0]),
+            (vec![0, 1, 2], vec![0, 1, 2], vec![0, 1, 0], vec![0, 1, 2], vec![2, 1, 0], vec![0, 1, 0]),
+            (vec![1], vec![0; 8], vec![0, 0], vec![0; 8], vec![1, 0], vec![0, 0]), // 8 identifications, 4 nodes, 3 classes
+            (vec![], vec![], vec![], vec![], vec![], vec![]),
+            (vec![], vec![], vec![0, 1], vec![], vec![], vec![1]),
+            (vec![0, 0], vec![], vec![0], vec![], vec![0, 0], vec![1]),
+            (vec![1], vec![0, 2], vec![0, 1, 0], vec![1, 1], vec![0], vec![1, 0]),
+            (vec![0], vec![0, 1], vec![0, 1], vec![0, 0], vec![0], vec![0]), // second boundary wire has the wrong label
+        ] {
+            chk_spider_fusion(ctx, &fusion_input(repr, &s, &t1, &w, &s2, &t2, &w2));
+        }
+        // 32+32 nodes merged in binomial-tree order (all prefixes and a reversed order), and a 40+40 path
+        let mut level_sets: Vec<Vec<usize>> = (0..=5).map(|k| (0..=k).collect()).collect();
+        level_sets.push(vec![5, 4, 3, 2, 1, 0]);
+        level_sets.push(vec![1, 2, 3, 4, 5]);
+        level_sets.push(vec![0, 2, 4]);
+        for ls in &level_sets {
+            let m = 32;
+            let (t1, s2) = binomial_pairs(m, ls);
+            let s: Vec<usize> = (0..m).rev().collect();
+            let t2: Vec<usize> = (0..m).step_by(3).collect();
+            chk_spider_fusion(ctx, &fusion_input(repr, &s, &t1, &vec![0; m], &s2, &t2, &vec![0; m]));
+        }
+        {
+            let m = 40;
+            let t1: Vec<usize> = (0..m - 1).chain(1..m).collect();
+            let s2: Vec<usize> = (0..m - 1).chain(0..m - 1).collect();
+            chk_spider_fusion(ctx, &fusion_input(repr, &[0, m - 1], &t1, &vec![1; m], &s2, &[m - 1, 0, m - 1], &vec![1; m]));
+        }
+        // random: two labels, non-injective and non-surjective legs, occasional type mismatch
+        let n = ctx.budget(8000, 250000);
+        for i in 0..n {
+            let (maxn, maxleg) = if i % 5 == 0 { (7, 9) } else { (4, 4) };
+            let labels = if i % 3 == 0 { 1 } else { 2 };
+            let (s, t1, w, mut s2, t2, mut w2) = random_fusion(&mut ctx.rng, maxn, maxleg, labels);
+            if ctx.rng.chance(1, 10) && !w2.is_empty() {
+                // break the boundary type: relabel one node of w2, or drop one boundary wire
+                if ctx.rng.chance(1, 2) {
+                    let k = ctx.rng.below(w2.len());
+                    w2[k] ^= 1;
+                } else if !s2.is_empty() {
+                    s2.pop();
+                }
+            }
+            chk_spider_fusion(ctx, &fusion_input(repr, &s, &t1, &w, &s2, &t2, &w2));
+        }
+    }
+    ctx.notes.push(
+        "rule: every check on the strict and the lax representation. dagger: exact comparison of nodes/edges/incidence/pending identifications, interfaces exchanged, involution exact; \
+         contravariance and tensor: library sides vs each other and vs reference, model::iso. inputs: corner list (model::corner_models + 14 C04 corners) — every ordered pair; type lists over {0,1} of length ≤2 (quick) / ≤3 (thorough) for id/twist; \
+         32+32-node binomial-order merges; random SMALL(3,2,2,3,2)/MEDIUM(5,3,3,4,2) pairs, composable by construction in 3/4 of the cases, 4000/120000 per representation, lax operands with 0-2 pending same-label identifications (prob 1/2, either operand). \
+         spider-build: exhaustive w∈{[],[0],[0,0],[0,1]} × leg tables of length ≤2 over values 0..2 × leg codomains {n-1,n,n+1}; 13 targeted rejections; random ≤6 nodes, legs ≤6, a leg leaves the node list with prob 1/4, 5000/120000. \
+         expected None iff some leg value is not a node; Some required when both codomains equal the node count; when a codomain differs from the node count but all values are nodes both None and a conforming Some are accepted. \
+         spider-fusion: exhaustive one-label cospans ≤3 nodes, legs ≤2 (quick) / ≤3 nodes, legs ≤3 (thorough), all pairs with matching boundary length; exhaustive two-label on w=w2=[0,1], legs ≤2 (includes every type mismatch); \
+         multiplicity-8 boundaries, binomial prefixes on 32+32 nodes, 40+40 path; random two-label ≤4 nodes/legs ≤4 (and ≤7/≤9 every fifth), 1/10 with broken boundary types, 8000/250000. \
+         non-trivial: dagger = operand has a node and an edge or interface and s != t; laws = hypotheses hold and both operands non-trivial; spider-build = at least one node and one leg entry; fusion = at least two nodes are merged"
+            .into(),
+    );
+}
